@@ -289,6 +289,9 @@ pub fn check(c: &Case, stats: &mut Stats) -> CheckResult {
     if m1.ids.iter().any(|id| m2.idx.get(id).is_some_and(|j| m1.parents[m1.i(*id)].len() > 30 && m2.parents[*j].len() > 30 && m1.parents[m1.i(*id)] != m2.parents[*j])) {
         stats.label("term-with-more-than-30-parents-on-both-sides-changed");
     }
+    if c.old.version > c.new.version {
+        stats.label("first-argument-has-the-later-release-version");
+    }
     for e in &c.edits {
         stats.label(&format!("edit:{e}"));
     }
@@ -655,9 +658,16 @@ fn small_strategy(tier: Tier) -> BoxedStrategy<Case> {
     // names up to 300 bytes; for the binary paths they are cut to the 255 bytes the format stores
     let cfg = GenCfg::small().terms(2, max).recs(4).standard().with_flags(true).names(NameMode::Rich);
     let paths = prop_oneof![6 => Just(PathSel::Bin(3)), 2 => Just(PathSel::Bin(2)), 1 => Just(PathSel::Bin(1)), 2 => Just(PathSel::Jax), 1 => Just(PathSel::JaxT), 1 => Just(PathSel::RoundTrip)];
-    (gen::facts(cfg), vec((0usize..EDIT_KINDS.len(), any::<[u16; 3]>(), name_strategy(NameMode::Plain)), 0..=4), paths)
-        .prop_map(|(old, script, path)| {
+    (gen::facts(cfg), vec((0usize..EDIT_KINDS.len(), any::<[u16; 3]>(), name_strategy(NameMode::Plain)), 0..=4), paths, 0u8..4)
+        .prop_map(|(old, script, path, vsel)| {
             let mut new = old.clone();
+            // the release versions of the two sides: equal, or the first / the second argument carries the later one
+            // (which side is "old" is decided by the argument order, not by the versions)
+            match vsel {
+                1 => new.version = (old.version.0.saturating_sub(1), old.version.1, old.version.2),
+                2 => new.version = (old.version.0.saturating_add(1), old.version.1 % 12 + 1, 1),
+                _ => {}
+            }
             let mut edits = Vec::new();
             for (kind, p, name) in script {
                 if let Some(k) = apply_edit(&mut new, kind, p, &name) {
@@ -691,7 +701,7 @@ impl Property for C18 {
         "C18"
     }
     fn rule(&self) -> String {
-        "Generated: a base fact set (both ontologies built through own v3 / v2 / v1 bytes, the as_bytes round trip or JAX files; obsolete terms, replacements to existing and to non-existing ids, records of all kinds) and an edit script of 0-4 edits out of 15 kinds (rename term, add/remove parent link, flip obsolete, set replacement to an existing / non-existing id, clear replacement, change replacement between two ids that are not terms, add/remove term, add/remove/rename record, add/remove link); one case in thirteen has 34-72 terms and per kind a record directly on >= 31 of them, with links added / removed at the lowest id, the highest id or in between, plus a leaf term with >= 31 direct parents whose parent list is edited the same way. One case in 55 replaces the direct terms of a record by a set of the same size with the same sum and xor, or the same h*31+id / h*33+id / 32-bit FNV value; one case in 27 compares ontologies of which one or both have no terms at all but carry records (Builder: add_gene / add_*_disease only). Oracle: the difference computed on the two fact sets: added/removed id sets per entity kind; changed terms with exact name pair, added/removed parent sets, obsolete pair, replacement id pair; changed records with name pair, added/removed terms, n_terms; every list free of duplicates; compare(new,old) is the mirror image; compare(o,o) reports nothing and compare(o, roundtrip(o)) exactly the names the binary format cuts at 255 bytes (text path: names up to 300 bytes; one rename in three extends the old name, so that long names share a long prefix, one in three only swaps the ASCII case of its letters). evaluations = comparisons. Non-trivial = the two fact sets differ; every edit kind must occur as a single-edit script in a run; distinct by hash of the case.".into()
+        "Generated: a base fact set (the two sides carry equal release versions, or either side the later one; both ontologies built through own v3 / v2 / v1 bytes, the as_bytes round trip or JAX files; obsolete terms, replacements to existing and to non-existing ids, records of all kinds) and an edit script of 0-4 edits out of 15 kinds (rename term, add/remove parent link, flip obsolete, set replacement to an existing / non-existing id, clear replacement, change replacement between two ids that are not terms, add/remove term, add/remove/rename record, add/remove link); one case in thirteen has 34-72 terms and per kind a record directly on >= 31 of them, with links added / removed at the lowest id, the highest id or in between, plus a leaf term with >= 31 direct parents whose parent list is edited the same way. One case in 55 replaces the direct terms of a record by a set of the same size with the same sum and xor, or the same h*31+id / h*33+id / 32-bit FNV value; one case in 27 compares ontologies of which one or both have no terms at all but carry records (Builder: add_gene / add_*_disease only). Oracle: the difference computed on the two fact sets: added/removed id sets per entity kind; changed terms with exact name pair, added/removed parent sets, obsolete pair, replacement id pair; changed records with name pair, added/removed terms, n_terms; every list free of duplicates; compare(new,old) is the mirror image; compare(o,o) reports nothing and compare(o, roundtrip(o)) exactly the names the binary format cuts at 255 bytes (text path: names up to 300 bytes; one rename in three extends the old name, so that long names share a long prefix, one in three only swaps the ASCII case of its letters). evaluations = comparisons. Non-trivial = the two fact sets differ; every edit kind must occur as a single-edit script in a run; distinct by hash of the case.".into()
     }
     fn assumptions(&self) -> Vec<String> {
         vec!["'replacement' of a term is the replacement id stored with it (replacement_id), whether or not that id is a term of the same ontology".into()]
@@ -706,7 +716,7 @@ impl Property for C18 {
         vec![
             "nontrivial", "single:rename-term", "single:add-parent", "single:remove-parent", "single:flip-obsolete", "single:set-replacement-existing", "single:set-replacement-dangling",
             "single:clear-replacement", "single:add-term", "single:remove-term", "single:add-record", "single:remove-record", "single:rename-record", "single:add-link", "single:remove-link",
-            "single:change-replacement-dangling-to-dangling", "name-longer-than-255-bytes", "bulk>65535-terms", "replacement-id-0", "record-with-more-than-30-terms-on-both-sides-changed", "term-with-more-than-30-parents-on-both-sides-changed", "ontology-without-terms", "edit:links-replaced-by-a-set-with-the-same-checksum",
+            "single:change-replacement-dangling-to-dangling", "name-longer-than-255-bytes", "bulk>65535-terms", "replacement-id-0", "record-with-more-than-30-terms-on-both-sides-changed", "term-with-more-than-30-parents-on-both-sides-changed", "ontology-without-terms", "edit:links-replaced-by-a-set-with-the-same-checksum", "first-argument-has-the-later-release-version",
         ]
     }
     fn run_generated(&self, tier: Tier, seed: u64, n: u64, stats: &mut Stats) -> Option<(Value, Failure)> {
